@@ -595,3 +595,110 @@ def rule_dict(R, ctx, rid="C09.dict"):
                             guarded = True
             R.ob(rid, dfn, "reader:" + site, guarded, "a new entry is pushed onto the vector whose length recognised it as new: %s" % guarded, cs.loc())
         R.floor(rid, "dictionary pushes in IdMap::decode", n, 2)
+
+
+def rule_json(R, ctx, rid="C09.json"):
+    """the JSON column of v1 (embeds, format values, legacy JSON content) is written by the serializer alone."""
+    from .accessors import _canon
+    Y = ctx.yrs
+    R.rule(rid, "R-OWN the v1 JSON text of an Any (format values, embeds): EncoderV1::write_json hands to write_string a buffer that "
+                "Any::to_json(any, buf) fills on every path and nothing else writes (no push / push_str / write! on it: escaping of "
+                "quotes, backslashes and control characters is the serializer's); DecoderV1::read_json answers Any::from_json of the "
+                "string it read; the v2 pair is write_any / Any::decode")
+    w = Y.fn("<yrs::updates::encoder::EncoderV1 as yrs::updates::encoder::Encoder>::write_json")
+    v = FnView(w)
+    cfg = w.cfg()
+    tj = w.calls_to("yrs::any::Any::to_json")
+    ws = w.calls_to("yrs::encoding::write::Write::write_string")
+    ok = len(tj) == 1 and len(ws) == 1 and cfg.postdominates(tj[0].bb, 0) and cfg.dominates(tj[0].bb, ws[0].bb) \
+        and _canon(v.arg(tj[0], 0, 8)) == "any"
+    R.ob(rid, w, "serializer-on-every-path", ok, "Any::to_json(any, buf) runs on every path before write_string: %s" % ok,
+         tj[0].loc() if tj else None)
+    if tj and ws:
+        buf = mir_root(w, tj[0].args[1])
+        others = []
+        for cs in w.calls():
+            nm = F.strip_generics(cs.name)
+            if cs.bb in (tj[0].bb,) or not cs.args:
+                continue
+            if re.search(r"String::(push|push_str|insert|insert_str|extend|truncate|clear)$|fmt::Write>::write_(str|fmt|char)$|::extend$", nm) \
+                    and mir_root(w, cs.args[0]) == buf:
+                others.append("%s at %s" % (nm.rsplit("::", 2)[-2] + "::" + nm.rsplit("::", 1)[-1], cs.loc()))
+        sent = mir_root(w, ws[0].args[1])
+        via = [c for c in w.calls_to("re:String::as_str$", "re:Deref>::deref$") if mir_root(w, c.args[0]) == buf]
+        R.ob(rid, w, "sole-writer", not others, "no other writer of the buffer" if not others else "the buffer is also written by %s" % others)
+        R.ob(rid, w, "sends-that-buffer", bool(via) and _canon(v.arg(ws[0], 1, 8)).startswith("String::as_str(") or bool(via),
+             "write_string(%s)" % _canon(v.arg(ws[0], 1, 8)))
+    r = Y.fn("<yrs::updates::decoder::DecoderV1 as yrs::updates::decoder::Decoder>::read_json")
+    rv = FnView(r)
+    ans = simp_deep(rv.terms.local(0, 12))
+    alts = list(ans[1]) if ans[0] == "phi" else [ans]
+    good = [a for a in alts if simp_deep(a)[0] == "call" and F.strip_generics(simp_deep(a)[1]).endswith("Any::from_json")
+            and term_has_call(a, "yrs::encoding::read::Read::read_string")]
+    rest = [a for a in alts if a not in good and not (simp_deep(a)[0] == "call" and "from_residual" in simp_deep(a)[1])]
+    R.ob(rid, r, "answer", len(good) == 1 and not rest,
+         "answers Any::from_json(read_string()) or the read error" if len(good) == 1 and not rest else
+         "answers %s" % [sshow(a) for a in alts])
+    w2 = Y.fn("<yrs::updates::encoder::EncoderV2 as yrs::updates::encoder::Encoder>::write_json")
+    v2 = FnView(w2)
+    wa = w2.calls_to("re:Encoder>::write_any$")
+    R.ob(rid, w2, "v2-writes-any", len(wa) == 1 and w2.cfg().postdominates(wa[0].bb, 0) and _canon(v2.arg(wa[0], 1, 8)) == "any",
+         "EncoderV2::write_json = write_any(any)")
+    r2 = Y.fn("<yrs::updates::decoder::DecoderV2 as yrs::updates::decoder::Decoder>::read_json")
+    single_answer(R, rid, r2, r"Any::decode$", "Any::decode(cursor)")
+
+
+VARINT_PAIRS = [
+    ("yrs::encoding::varint::write_var_u32", "yrs::encoding::varint::read_var_u32"),
+    ("yrs::encoding::varint::write_var_u64", "yrs::encoding::varint::read_var_u64"),
+    ("yrs::encoding::varint::write_var_i64", "yrs::encoding::varint::read_var_i64"),
+    ("<i64 as yrs::encoding::varint::SignedVarInt>::write_signed", "<i64 as yrs::encoding::varint::SignedVarInt>::read_signed"),
+    ("<u128 as yrs::encoding::varint::VarInt>::write", "<u128 as yrs::encoding::varint::VarInt>::read"),
+]
+
+
+def _bit_ops(fn):
+    ops = []
+    for i, j, st in fn.stmts():
+        rv = st["rv"]
+        if "bin" in rv and rv["bin"] in ("BitAnd", "Gt", "Ge", "Lt", "Shr", "ShrUnchecked"):
+            ka, kb = mir_root(fn, rv["a"]), mir_root(fn, rv["b"])
+            c = [k[1] for k in (ka, kb) if k[0] == "const" and isinstance(k[1], int)]
+            if len(c) == 1:
+                ops.append((rv["bin"].replace("Unchecked", ""), c[0], st.get("line")))
+    return ops
+
+
+def rule_varint(R, ctx, rid="C09.varint"):
+    """bit layout of the lib0 var-ints: continuation flag, payload mask and shift agree inside each writer and with its reader."""
+    Y = ctx.yrs
+    R.rule(rid, "R-TABLE bit layout of the var-int codecs (every clock, length, client id and number goes through them): inside each "
+                "writer a byte whose payload is `value & M` (M = 0x3f for the first byte of a signed number, 0x7f otherwise) sets "
+                "the continuation bit exactly when bits remain — the test is `value > M` or `value >= M + 1`, nothing else — and the "
+                "value is then shifted by log2(M + 1); the paired reader extracts its payload with the same masks. A threshold "
+                "that is off by one (`>= M`) announces a byte that is never written and the reader swallows the next field")
+    n = 0
+    for wp, rp in VARINT_PAIRS:
+        w, r = Y.fn(wp), Y.fn(rp)
+        wo, ro = _bit_ops(w), _bit_ops(r)
+        masks = sorted({c for op, c, _ in wo if op == "BitAnd" and c in (0x3f, 0x7f)})
+        R.floor(rid, "payload masks in " + wp, len(masks), 1)
+        bad = []
+        for op, c, line in wo:
+            if op == "Gt" and c > 0 and c not in masks and c not in (70, 180):
+                bad.append("line %s: continuation test `> %d` matches no payload mask %s" % (line, c, masks))
+            if op == "Ge" and c > 0 and (c - 1) not in masks:
+                bad.append("line %s: continuation test `>= %d` matches no payload mask %s (expected mask + 1)" % (line, c, masks))
+        for m in masks:
+            n += 1
+            if not any((op == "Gt" and c == m) or (op == "Ge" and c == m + 1) for op, c, _ in wo):
+                bad.append("payload mask %#x has no continuation test `> %#x` / `>= %#x`" % (m, m, m + 1))
+            if not any(op == "Shr" and (1 << c) == m + 1 for op, c, _ in wo):
+                bad.append("payload mask %#x is not followed by a shift by %d" % (m, (m + 1).bit_length() - 1))
+        R.ob(rid, w, "layout", not bad, "masks %s, thresholds and shifts agree" % [hex(m) for m in masks] if not bad else "; ".join(bad))
+        rmasks = sorted({c for op, c, _ in ro if op == "BitAnd" and c in (0x3f, 0x7f)})
+        R.ob(rid, r, "reader-masks", rmasks == masks, "reader payload masks %s = writer's" % [hex(m) for m in rmasks] if rmasks == masks else
+             "reader payload masks %s differ from the writer's %s" % ([hex(m) for m in rmasks], [hex(m) for m in masks]))
+        cont = any((op == "Lt" and c == 0x80) or (op == "BitAnd" and c == 0x80) for op, c, _ in ro)
+        R.ob(rid, r, "reader-continuation", cont, "the reader stops on a byte below 0x80 / with bit 0x80 clear: %s" % cont)
+    R.floor(rid, "payload masks checked", n, 7)
